@@ -1,5 +1,6 @@
 /- Helper lemmas for the entitlement ledger of Model/OnchainClaims.lean (C07).  Core only. -/
 import LdkModel.Model.OnchainClaims
+import LdkModel.Proofs.Package
 namespace Ldk.Onchain
 open Ldk
 
@@ -220,5 +221,82 @@ theorem bury_settled (best : Nat) (e : Entry) (hp : e.stage ≠ .pending) (hb : 
     simp [Entry.bury, hasReachedConfirmationThreshold, hb]
   | matured net => simp [Entry.bury]
   | gone => simp [Entry.bury]
+
+end Ldk.Onchain
+
+/-! ### fee-bump trajectories (C07) -/
+namespace Ldk.Onchain
+open Ldk Ldk.Pkg
+
+/-- every step's estimate leaves `feerate_estimate * 5` inside a u32 (where the Nat rendering of the
+    Rust arithmetic is exact) -/
+def EstInRange (steps : List (FeerateStrategy × Nat)) : Prop :=
+  ∀ p ∈ steps, 5 * boundedSatPer1000Weight p.2 ≤ U32_MAX
+
+theorem extTargets_ge (steps : List (FeerateStrategy × Nat)) :
+    ∀ prev, prev ≤ U32_MAX → EstInRange steps → ∀ t ∈ extTargets prev steps, prev ≤ t ∧ t ≤ U32_MAX := by
+  induction steps with
+  | nil => intro prev _ _ t ht; cases ht
+  | cons p rest ih =>
+    intro prev hp hr t ht
+    obtain ⟨s, est⟩ := p
+    have hge := computePackageFeerate_ge prev s est
+    have hin := computePackageFeerate_in_range prev s est (hr (s, est) List.mem_cons_self)
+    rw [pf_nat_min_eq] at hge
+    simp only [extTargets, List.mem_cons] at ht
+    rcases ht with rfl | ht
+    · exact ⟨by omega, hin⟩
+    · have := ih _ hin (fun q hq => hr q (List.mem_cons_of_mem _ hq)) t ht
+      exact ⟨by omega, this.2⟩
+
+theorem extTargets_pairwise (steps : List (FeerateStrategy × Nat)) :
+    ∀ prev, prev ≤ U32_MAX → EstInRange steps → (extTargets prev steps).Pairwise (· ≤ ·) := by
+  induction steps with
+  | nil => intro prev _ _; exact List.Pairwise.nil
+  | cons p rest ih =>
+    intro prev hp hr
+    obtain ⟨s, est⟩ := p
+    have hin := computePackageFeerate_in_range prev s est (hr (s, est) List.mem_cons_self)
+    have hr' : EstInRange rest := fun q hq => hr q (List.mem_cons_of_mem _ hq)
+    simp only [extTargets]
+    exact List.Pairwise.cons (fun t ht => (extTargets_ge rest _ hin hr' t ht).1) (ih _ hin hr')
+
+theorem ownStep_ge {amt w dust prev : Nat} {s : FeerateStrategy} {est out rate : Nat} (hw : 4 ≤ w)
+    (h : computePackageOutput amt w dust prev s est = some (out, rate)) :
+    prev ≤ rate ∧ FEERATE_FLOOR_SATS_PER_KW ≤ rate ∨ prev ≤ rate ∧ prev ≠ 0 := by
+  obtain ⟨fee, _, hc⟩ := computePackageOutput_some h
+  rcases hc with ⟨hp, hb⟩ | ⟨hp, hb⟩
+  · exact Or.inr ⟨(feerate_bump_monotone_core w amt dust prev s est fee rate hb).1 hw, hp⟩
+  · have := (computeFee_some hb).2.2
+    exact Or.inl ⟨by omega, this⟩
+
+theorem ownFeerates_ge (rs : List Reissue) :
+    ∀ prev, (∀ r ∈ rs, 4 ≤ r.weight) → ∀ t ∈ ownFeerates prev rs, prev ≤ t := by
+  induction rs with
+  | nil => intro prev _ t ht; cases ht
+  | cons r rest ih =>
+    intro prev hw t ht
+    have hw' : ∀ r' ∈ rest, 4 ≤ r'.weight := fun q hq => hw q (List.mem_cons_of_mem _ hq)
+    simp only [ownFeerates] at ht
+    split at ht
+    · rename_i out rate hc
+      have hge : prev ≤ rate := by
+        rcases ownStep_ge (hw r List.mem_cons_self) hc with h | h <;> exact h.1
+      rcases List.mem_cons.mp ht with rfl | ht
+      · exact hge
+      · exact Nat.le_trans hge (ih _ hw' t ht)
+    · exact ih _ hw' t ht
+
+theorem ownFeerates_pairwise (rs : List Reissue) :
+    ∀ prev, (∀ r ∈ rs, 4 ≤ r.weight) → (ownFeerates prev rs).Pairwise (· ≤ ·) := by
+  induction rs with
+  | nil => intro prev _; exact List.Pairwise.nil
+  | cons r rest ih =>
+    intro prev hw
+    have hw' : ∀ r' ∈ rest, 4 ≤ r'.weight := fun q hq => hw q (List.mem_cons_of_mem _ hq)
+    simp only [ownFeerates]
+    split
+    · exact List.Pairwise.cons (fun t ht => ownFeerates_ge rest _ hw' t ht) (ih _ hw')
+    · exact ih _ hw'
 
 end Ldk.Onchain
